@@ -246,6 +246,14 @@ def s8_reader_not_wider(chk: Check, proj: Project, m) -> None:
            f"everything `{names[0]}` matches is an end tag of <head> or <body> (name, then whitespace or `>`)" if ok2 else
            f"`{names[0]}` also matches {wit2!r}: the end tag of another (custom) element whose name merely starts with head / body is taken for the document's, and the CSS / JS is inserted there",
            detail={"reference": ref2, "witness": wit2})
+    # ... and ALL of them as HTML writes them: the tag name may be followed by whitespace before `>`
+    need = r"</(?:head|body)[ \t\n\r\f]*>"
+    ok3, wit3 = included(Lang(need.encode() if isinstance(pat2, bytes) else need, 0), Lang(pat2, fl2))
+    chk.paths += 1
+    chk.ob("S8", "dependencies:end-tag-regex:matches-every-head-body-end-tag", m.loc(node2), ok3,
+           f"`{names[0]}` matches `</head>` / `</body>` with any whitespace before `>` (the HTML syntax of an end tag)" if ok3 else
+           f"`{names[0]}` does not match {wit3!r}, a valid end tag: on such a page no insertion point is found, the markers are stripped and the collected JS / CSS is silently dropped",
+           detail={"required": need, "witness": wit3})
 
 
 def _insertions(f) -> List[Tuple[ast.Assign, str, str, str]]:
